@@ -1,4 +1,5 @@
 """C06: conditional compilation."""
+import re as _re
 import itertools
 from .. import core
 
@@ -7,7 +8,7 @@ COMPONENT = "prep"
 
 FORMS = ["struct S%d {}", "  struct S%d {}", "#if A", "#if !A", "#if A && B", "#elif B", "#else", "#endif",
          "#define A", "#undef A", "#define B", "  # endif // done"]
-BAD_FORMS = ["#", "#foo", "#if", "#else X", "#if A &", "#define", "#if (A", "#elif", "#endif endif", "#if A B", "# define 1A", "#if A | B"]
+BAD_FORMS = ["#", "#foo", "#if", "#else X", "#if A &", "#define", "#if (A", "#elif", "#endif endif", "#if A B", "# define 1A", "#if A | B", "#if A && !B", "#if !!A"]
 SUBSETS = ["-", "A", "B", "C", "A,B", "A,C", "B,C", "A,B,C"]
 
 
@@ -51,6 +52,45 @@ def gen_exprs(depth):
                     e.append("%s %s %s" % (x, op, y))
         exprs[d] = e
     return exprs[depth]
+
+
+def defect_cases(rng, n):
+    """files with two or more independent defective directives -> [(text, rows of the defects)]"""
+    scases = []
+    for _ in range(n):
+        ls, rows = ["module M"], []
+        for _ in range(rng.choice([2, 3, 4, 6])):
+            r = rng.random()
+            if r < 0.45:
+                ls.append(rng.choice(["#endif", "#else", "#elif A", "#undef", "#define", "  #endif // x", "#else // y", "#define // nothing", "#undef\t",
+                                      "\u3000#endif", "#define\u3000", "#undef \u00a0// \u00e9t\u00e9", "\u00a0 #else", "#define // \U0001F600"]))
+                rows.append(len(ls))
+            elif r < 0.7:
+                ls.append("struct S%d {}" % len(ls))
+            else:
+                ls += ["#if A", "struct T%d {}" % len(ls), rng.choice(["#else", "#elif B"]), "struct U%d {}" % len(ls), "#endif"]
+        if rng.random() < 0.3:
+            # a region left open, the file's last line a directive: one more report, at the end of that line
+            ls += ["#if A"] + (["#define B // \u00e9"] if rng.random() < 0.5 else [])
+            rows.append(len(ls))
+        if len(rows) >= 2:
+            scases.append(("\n".join(ls) + "\n", rows))
+    return scases
+
+
+def defect_spans(text, rows):
+    """where exactly each defect is reported, read from the source: a keyword that has no place from its '#' to its last letter; a directive that ends
+    too early (and a file that ends with a region open) at the end of the line, where the line feed stands; columns count characters"""
+    tl = text.split("\n")
+    want = set()
+    for r_ in set(rows):
+        l_ = tl[r_ - 1]
+        kw = _re.search(r"#(endif|else|elif)", l_)
+        if kw:
+            want.add("%d:%d-%d:%d" % (r_, kw.start() + 1, r_, kw.end() + 1))
+        else:
+            want.add("%d:%d-%d:%d" % (r_, len(l_) + 1, r_, len(l_) + 1))
+    return want
 
 
 def run(ck):
@@ -128,7 +168,6 @@ def run(ck):
         if rng.random() < 0.4:
             # the same file with its symbols spelled with underscores and digits (also among the externally defined ones)
             ren = {"A": rng.choice(["FOO_BAR", "A_", "_a"]), "B": rng.choice(["x_1", "B2", "b__"]), "C": rng.choice(["C", "c_3_"])}
-            import re as _re
             lines = [_re.sub(r"\b([ABC])\b", lambda m_: ren[m_.group(1)], l) if l.lstrip().startswith("#") else l for l in lines]
             syms = ",".join(ren[x] for x in syms.split(",")) if syms != "-" else "-"
         if rng.random() < 0.3:
@@ -268,23 +307,10 @@ def run(ck):
         if sorted(got) != sorted(want) or other:
             ck.violation("doc-comments-across-directives", "comment-line-moved", text, repr(sorted(want)), repr(sorted(got)) + (" and %s %s" % (other[0]["code"], other[0]["msg"]) if other else ""))
     # 7. several independent defects in one file: each is reported where it stands, none is dropped as a consequence of an earlier one
-    scases = []
-    for _ in range(300 if ck.tier == "quick" else 3000):
-        ls, rows = ["module M"], []
-        for _ in range(rng.choice([2, 3, 4, 6])):
-            r = rng.random()
-            if r < 0.45:
-                ls.append(rng.choice(["#endif", "#else", "#elif A", "#undef", "#define", "  #endif // x", "#else // y", "#define // nothing", "#undef\t"]))
-                rows.append(len(ls))
-            elif r < 0.7:
-                ls.append("struct S%d {}" % len(ls))
-            else:
-                ls += ["#if A", "struct T%d {}" % len(ls), rng.choice(["#else", "#elif B"]), "struct U%d {}" % len(ls), "#endif"]
-        if len(rows) >= 2:
-            scases.append(("\n".join(ls) + "\n", rows))
+    scases = defect_cases(rng, 300 if ck.tier == "quick" else 3000)
     so = core.run_impl("diags", ["diags - " + hx(t) for t, _ in scases], chunk=200, timeout=120)
     ck.stream("several-defects", description="files with two or more independent defective directives at the top level (a stray #endif, #else or #elif, a #define or #undef without its symbol) between well-formed lines and regions: "
-              "a syntax error is reported on the line of every one of them")
+              "a syntax error is reported for every one of them, at the place the source gives (the stray keyword, or the end of the line that ends too early; also for a region still open at the end of the file; blanks and comments with characters of every width)")
     for (text, rows), oo in zip(scases, so):
         ck.count("several-defects", text, kind="%d defects" % len(rows))
         dl = parse_diags(oo)
@@ -294,6 +320,13 @@ def run(ck):
         got = sorted({int(d["span"].rsplit("-", 1)[0].split(":")[-2]) for d in dl if d["code"] == "E002" and d["span"] != "-"})
         if got != sorted(set(rows)):
             ck.violation("several-defects", "defective-directive-not-reported" if len(got) < len(set(rows)) else "reports-differ", text, "syntax errors on lines %s" % sorted(set(rows)), "on lines %s" % got)
+            continue
+        # where exactly, read from the source: a keyword that has no place is reported from its '#' to its last letter; a directive that ends
+        # too early (and a file that ends with a region open) at the end of the line, where the line feed stands; columns count characters
+        want = defect_spans(text, rows)
+        gots = {_re.search(r"(\d+:\d+-\d+:\d+)$", d["span"]).group(1) for d in dl if d["code"] == "E002" and d["span"] != "-"}
+        if gots != want:
+            ck.violation("several-defects", "defect-reported-elsewhere", text, "syntax errors at %s" % sorted(want), "at %s" % sorted(gots))
     ck.extra["exhaustive"] = True
     ck.extra["rule"] = ("bounded-exhaustive: all sequences of <= %d lines over %d line forms x all 8 subsets of {A,B,C}, all sequences of %d lines x %d subsets; all sequences of <= 3 lines containing a malformed form; "
                         "%d expressions (grammar-enumerated, depth <= %d) x all 8 valuations; %d random files (nesting <= 5, indentation before '#', any Unicode white space as the blanks of directive lines, trailing comments, CRLF, blank lines); multi-file leakage. "
